@@ -1,5 +1,544 @@
+/-
+  C15 — loading a well-formed static ELF reproduces its segments, entry and symbols.
+
+  `load_image`: for every file and every parse result whose program-header table consists of headers without effect
+  and loadable segments (p_filesz ≤ p_memsz, file range inside the file, end inside the address space) on pairwise
+  distinct pages, in any number and order, `from_binary` succeeds and
+    * each segment's file bytes appear at p_vaddr, the rest up to p_memsz — in fact up to the end of the page — is zero,
+    * the permissions of every such address are exactly the segment flags (`prot_bits`),
+    * RIP = e_entry, the general registers are what the constructor left, FS = 0,
+    * every address that carries a recorded symbol resolves to the name of a symbol recorded there (`symbols_resolve`,
+      for any symbol table, with or without names, with aliases).
+  The proof computes the loader's memory exactly: after the table it is the list of `wantArea`s of the loads, in table
+  order (`loadSegments_image`), for both allocation paths (file bytes filling the area exactly / zero fill + copy).
+  Not covered by the theorem, only by the correspondence: PT_TLS (sets FS), and the `elf` crate's parsing.
+  p_vaddr = 0 is not "well-formed" here: the loader skips such headers (Linux refuses to map page 0 as well).
+-/
 import AxVerif.Model.Elf
+import AxVerif.Props.C09
+import AxVerif.Props.C16
 namespace Ax.C15
 open Ax
-theorem placeholder : True := trivial
+
+theorem collides_false_of_sep (start len : Nat) (ar : Area) (hl : 0 < len) (har : 0 < ar.len)
+    (h : ar.start + ar.len ≤ start ∨ start + len ≤ ar.start) : collides start len ar = false := by
+  simp only [collides, Bool.or_eq_false_iff, Bool.and_eq_false_iff, decide_eq_false_iff_not]
+  omega
+
+theorem initArea_succeeds (m : Mem) (start : Nat) (data : List Byte) (name)
+    (hl : 0 < data.length) (hfit : start + data.length ≤ U64)
+    (hsep : ∀ ar ∈ m, 0 < ar.len ∧ (ar.start + ar.len ≤ start ∨ start + data.length ≤ ar.start)) :
+    initArea m start data name =
+      .ok (m ++ [{ name := name, start := start, len := data.length, data := data, access := PROT_READ ||| PROT_WRITE }]) := by
+  unfold initArea
+  have h1 : pastEnd start data.length = false := by
+    simp only [pastEnd, Bool.and_eq_false_iff, decide_eq_false_iff_not]; omega
+  have h2 : m.any (collides start data.length) = false := by
+    rw [List.any_eq_false]
+    intro ar har
+    have := hsep ar har
+    simp [collides_false_of_sep start data.length ar hl this.1 this.2]
+  simp [h1, h2]
+
+theorem write_append_last (m : Mem) (a : Area) (x : Nat) (bs : List Byte)
+    (hnone : ∀ ar ∈ m, ar.contains x = false) (hc : a.contains x = true)
+    (hfit : bs.length ≤ a.len - (x - a.start)) (hw : hasPerm a.access PROT_WRITE = true) (hd : a.data.length = a.len) :
+    memWriteBytes (m ++ [a]) x bs = .ok (m ++ [{ a with data := splice a.data (x - a.start) bs }]) := by
+  induction m with
+  | nil =>
+    simp only [List.nil_append, memWriteBytes, hc, if_true]
+    have h1 : ¬ (a.len - (x - a.start) < bs.length) := by omega
+    rw [contains_iff] at hc
+    have h2 : x - a.start + bs.length ≤ a.data.length := by omega
+    simp [h1, hw, h2]
+  | cons ar rest ih =>
+    have h0 := hnone ar (List.mem_cons_self ..)
+    simp only [List.cons_append, memWriteBytes, h0, Bool.false_eq_true, if_false]
+    rw [ih (fun b hb => hnone b (List.mem_cons_of_mem _ hb))]
+
+theorem memProt_go_append_last (m : Mem) (a : Area) (prot : Nat) (hne : ∀ ar ∈ m, ar.start ≠ a.start) :
+    memProt.go a.start prot (m ++ [a]) = .ok (m ++ [{ a with access := prot }]) := by
+  induction m with
+  | nil => simp [memProt.go]
+  | cons ar rest ih =>
+    have h0 := hne ar (List.mem_cons_self ..)
+    simp only [List.cons_append, memProt.go, h0, if_false]
+    rw [ih (fun b hb => hne b (List.mem_cons_of_mem _ hb))]
+
+theorem memProt_append_last (m : Mem) (a : Area) (prot : Nat) (hp : prot ≤ 7) (hne : ∀ ar ∈ m, ar.start ≠ a.start) :
+    memProt (m ++ [a]) a.start prot = .ok (m ++ [{ a with access := prot }]) := by
+  unfold memProt
+  have : ¬ 7 < prot := by omega
+  simp only [this, if_false]
+  exact memProt_go_append_last m a prot hne
+
+theorem splice_zeros_front (n : Nat) (bs : List Byte) (_h : bs.length ≤ n) :
+    splice (zeros n) 0 bs = bs ++ zeros (n - bs.length) := by
+  simp [splice, zeros, List.drop_replicate]
+
+theorem elfFlagsToProt_le (f : Nat) : elfFlagsToProt f ≤ 7 := by
+  unfold elfFlagsToProt PROT_READ PROT_WRITE PROT_EXEC
+  split <;> split <;> split <;> decide
+
+/-! ## the specification of a loaded image -/
+
+/-- end of the last page a segment touches -/
+def pageEnd (g : ElfSeg) : Nat := (g.vaddr + g.memsz + 0xfff) / 0x1000 * 0x1000
+
+/-- length of the area that holds the segment: from p_vaddr to the end of its last page -/
+def areaLen (g : ElfSeg) : Nat := pageEnd g - g.vaddr
+
+/-- the file bytes of a segment -/
+def fileBytes (file : List Byte) (g : ElfSeg) : List Byte := (file.drop g.offset).take g.filesz
+
+/-- the bytes the loaded area must hold: the file bytes, then zeros -/
+def imgData (file : List Byte) (g : ElfSeg) : List Byte := fileBytes file g ++ zeros (areaLen g - g.filesz)
+
+/-- a loadable segment of a well-formed file -/
+structure GoodLoad (file : List Byte) (g : ElfSeg) : Prop where
+  ty : g.ptype = PT_LOAD
+  va : g.vaddr ≠ 0
+  pos : 0 < g.memsz
+  fsz : g.filesz ≤ g.memsz
+  infile : g.offset + g.filesz ≤ file.length
+  fits : g.vaddr + g.memsz + 0xfff < U64
+
+theorem pageEnd_bounds (g : ElfSeg) : g.vaddr + g.memsz ≤ pageEnd g ∧ pageEnd g < g.vaddr + g.memsz + 0x1000 ∧ pageEnd g % 0x1000 = 0 := by
+  unfold pageEnd; omega
+
+theorem roundUp_good (file) (g : ElfSeg) (h : GoodLoad file g) : roundUpPage (g.vaddr + g.memsz) = some (pageEnd g) := by
+  unfold roundUpPage pageEnd
+  have := h.fits
+  simp [this]
+
+theorem fileBytes_length (file) (g : ElfSeg) (h : GoodLoad file g) : (fileBytes file g).length = g.filesz := by
+  unfold fileBytes
+  have := h.infile
+  simp only [List.length_take, List.length_drop]; omega
+
+theorem imgData_length (file) (g : ElfSeg) (h : GoodLoad file g) : (imgData file g).length = areaLen g := by
+  unfold imgData
+  have := pageEnd_bounds g
+  have := h.fsz
+  simp only [List.length_append, fileBytes_length file g h, zeros, List.length_replicate, areaLen]
+  omega
+
+/-- the area a well-formed PT_LOAD must produce (the name does not matter) -/
+def wantArea (file : List Byte) (g : ElfSeg) (name : Option String) : Area :=
+  { name := name, start := g.vaddr, len := areaLen g, data := imgData file g, access := elfFlagsToProt g.flags }
+
+/-- **One good PT_LOAD**: on a memory whose areas are all non-empty and away from the segment's pages, the loader appends
+    exactly the wanted area and accounts for its size. -/
+theorem loadLoad_good (file : List Byte) (st : LoadState) (g : ElfSeg) (hg : GoodLoad file g)
+    (hsep : ∀ ar ∈ st.s.mem, 0 < ar.len ∧ (ar.start + ar.len ≤ g.vaddr ∨ pageEnd g ≤ ar.start))
+    (hcap : st.image + areaLen g ≤ MAX_IMAGE_SIZE) :
+    ∃ name, loadLoad st g (fileBytes file g) =
+      .ok { s := { st.s with mem := st.s.mem ++ [wantArea file g name] }, image := st.image + areaLen g } := by
+  have hb := pageEnd_bounds g
+  have hfits := hg.fits
+  have hpos := hg.pos
+  have hfl := fileBytes_length file g hg
+  have hal : 0 < areaLen g := by unfold areaLen; omega
+  unfold loadLoad
+  have h1 : ¬ U64 ≤ g.vaddr + g.memsz := by omega
+  simp only [h1, if_false, roundUp_good file g hg]
+  have h2 : ¬ MAX_IMAGE_SIZE < st.image + (pageEnd g - g.vaddr) := by unfold areaLen at hcap; omega
+  simp only [h2, if_false]
+  have hne : ∀ ar ∈ st.s.mem, ar.start ≠ g.vaddr := by
+    intro ar har
+    have := hsep ar har
+    omega
+  have hprot := elfFlagsToProt_le g.flags
+  unfold loadArea
+  by_cases hpath : pageEnd g - g.vaddr = g.filesz
+  · -- the file bytes fill the area exactly
+    refine ⟨some ("elf_load_header_0x" ++ String.ofList (Nat.toDigits 16 g.vaddr)), ?_⟩
+    simp only [hpath, if_true]
+    have hia := initArea_succeeds st.s.mem g.vaddr (fileBytes file g)
+      (some ("elf_load_header_0x" ++ String.ofList (Nat.toDigits 16 g.vaddr)))
+      (by rw [hfl]; unfold areaLen at hal; omega) (by rw [hfl]; omega)
+      (by intro ar har; have := hsep ar har; rw [hfl]; omega)
+    rw [hia]
+    simp only
+    have := memProt_append_last st.s.mem
+      { name := some ("elf_load_header_0x" ++ String.ofList (Nat.toDigits 16 g.vaddr)), start := g.vaddr,
+        len := (fileBytes file g).length, data := fileBytes file g, access := PROT_READ ||| PROT_WRITE }
+      (elfFlagsToProt g.flags) hprot hne
+    simp only at this
+    rw [this]
+    simp only [wantArea, imgData, areaLen, hpath, hfl, Nat.sub_self, zeros, List.replicate_zero, List.append_nil]
+  · refine ⟨some ("elf_load_zeroed_header_0x" ++ String.ofList (Nat.toDigits 16 g.vaddr)), ?_⟩
+    simp only [hpath, if_false]
+    unfold initZero
+    have hzl : (zeros (pageEnd g - g.vaddr)).length = pageEnd g - g.vaddr := by simp [zeros]
+    have hia := initArea_succeeds st.s.mem g.vaddr (zeros (pageEnd g - g.vaddr))
+      (some ("elf_load_zeroed_header_0x" ++ String.ofList (Nat.toDigits 16 g.vaddr)))
+      (by rw [hzl]; unfold areaLen at hal; omega) (by rw [hzl]; omega)
+      (by intro ar har; have := hsep ar har; rw [hzl]; omega)
+    rw [hia]
+    simp only [hzl]
+    have hw := write_append_last st.s.mem
+      { name := some ("elf_load_zeroed_header_0x" ++ String.ofList (Nat.toDigits 16 g.vaddr)), start := g.vaddr,
+        len := pageEnd g - g.vaddr, data := zeros (pageEnd g - g.vaddr), access := PROT_READ ||| PROT_WRITE }
+      g.vaddr (fileBytes file g)
+      (by
+        intro ar har
+        have := hsep ar har
+        rw [contains_false_iff]; omega)
+      (by rw [contains_iff]; simp only; unfold areaLen at hal; omega)
+      (by simp only [hfl, Nat.sub_self]; have := hg.fsz; omega)
+      (by simp only; decide) (by simp [zeros])
+    simp only [Nat.sub_self] at hw
+    rw [hw]
+    simp only
+    have := memProt_append_last st.s.mem
+      { name := some ("elf_load_zeroed_header_0x" ++ String.ofList (Nat.toDigits 16 g.vaddr)), start := g.vaddr,
+        len := pageEnd g - g.vaddr,
+        data := splice (zeros (pageEnd g - g.vaddr)) 0 (fileBytes file g), access := PROT_READ ||| PROT_WRITE }
+      (elfFlagsToProt g.flags) hprot hne
+    simp only at this
+    rw [this]
+    have hsp := splice_zeros_front (pageEnd g - g.vaddr) (fileBytes file g) (by rw [hfl]; have := hg.fsz; omega)
+    simp only [wantArea, imgData, areaLen, hsp, hfl]
+/-! ## the segment loop on a well-formed table -/
+
+def isLoadB (g : ElfSeg) : Bool := g.ptype == PT_LOAD && g.vaddr != 0
+
+/-- headers the loader passes over without any effect: p_vaddr = 0, or — with file data inside the file — one of the
+    skipped types, or a GNU_STACK header asking for a read-write stack -/
+def Harmless (file : List Byte) (g : ElfSeg) : Prop :=
+  g.vaddr = 0 ∨ (g.offset + g.filesz ≤ file.length ∧ (skippedType g.ptype = true ∨ (g.ptype = PT_GNU_STACK ∧ g.flags = 6)))
+
+/-- two segments on distinct pages -/
+def sepSeg (a b : ElfSeg) : Prop := pageEnd a ≤ b.vaddr ∨ pageEnd b ≤ a.vaddr
+
+theorem harmless_step (file : List Byte) (st : LoadState) (g : ElfSeg) (h : Harmless file g) :
+    loadSegment file st g = .ok st := by
+  unfold loadSegment
+  rcases h with h | ⟨hin, h⟩
+  · simp [h]
+  · by_cases hv : g.vaddr = 0
+    · simp [hv]
+    · simp only [hv, if_false, segmentData, hin, if_true]
+      rcases h with h | ⟨h1, h2⟩
+      · simp [h]
+      · have c1 : skippedType PT_GNU_STACK = false := by decide
+        have c2 : ¬ (PT_GNU_STACK = PT_DYNAMIC) := by decide
+        simp only [h1, c1, c2, h2, Bool.false_eq_true, if_false, if_true, ne_eq, not_true_eq_false]
+
+theorem harmless_not_load (file : List Byte) (g : ElfSeg) (h : Harmless file g) : isLoadB g = false := by
+  unfold isLoadB
+  rcases h with h | ⟨_, h | ⟨h1, _⟩⟩
+  · simp [h]
+  · have : g.ptype ≠ PT_LOAD := by
+      intro e; rw [e] at h; revert h; decide
+    simp [this]
+  · have : g.ptype ≠ PT_LOAD := by rw [h1]; decide
+    simp [this]
+
+theorem good_is_load (file : List Byte) (g : ElfSeg) (h : GoodLoad file g) : isLoadB g = true := by
+  simp [isLoadB, h.ty, h.va]
+
+theorem good_step (file : List Byte) (st : LoadState) (g : ElfSeg) (h : GoodLoad file g) :
+    loadSegment file st g = loadLoad st g (fileBytes file g) := by
+  unfold loadSegment
+  have h1 : skippedType PT_LOAD = false := by decide
+  have h2 : ¬ PT_LOAD = PT_DYNAMIC := by decide
+  have h3 : ¬ PT_LOAD = PT_GNU_STACK := by decide
+  have h4 : ¬ PT_LOAD = PT_TLS := by decide
+  simp only [h.va, if_false, segmentData, h.infile, if_true, h.ty, h1, Bool.false_eq_true, h2, h3, h4, fileBytes]
+
+/-- what is compared: everything of an area but its name -/
+def proj (ar : Area) : Nat × Nat × List Byte × Nat := (ar.start, ar.len, ar.data, ar.access)
+def want (file : List Byte) (g : ElfSeg) : Nat × Nat × List Byte × Nat :=
+  (g.vaddr, areaLen g, imgData file g, elfFlagsToProt g.flags)
+
+theorem areaLen_pos (file : List Byte) (g : ElfSeg) (h : GoodLoad file g) : 0 < areaLen g ∧ g.vaddr + areaLen g = pageEnd g := by
+  have := pageEnd_bounds g
+  have := h.pos
+  unfold areaLen; omega
+
+/-- **The segment loop**: from a memory that holds exactly the areas of the loads `done` so far, a table of harmless headers
+    and good loads on pairwise distinct pages is processed without error, and the memory afterwards holds exactly the areas
+    of all loads, in table order; nothing but memory changes. -/
+theorem loadSegments_image (file : List Byte) (rest : List ElfSeg) :
+    ∀ (done : List ElfSeg) (st : LoadState),
+    (∀ d ∈ done, GoodLoad file d) →
+    st.s.mem.map proj = done.map (want file) →
+    (∀ g ∈ rest, Harmless file g ∨ GoodLoad file g) →
+    (∀ d ∈ done, ∀ r ∈ rest, GoodLoad file r → sepSeg d r) →
+    rest.Pairwise (fun a b => GoodLoad file a → GoodLoad file b → sepSeg a b) →
+    st.image + ((rest.filter isLoadB).map areaLen).sum ≤ MAX_IMAGE_SIZE →
+    ∃ st', loadSegments file st rest = .ok st' ∧
+      st'.s.mem.map proj = (done ++ rest.filter isLoadB).map (want file) ∧
+      st'.s = { st.s with mem := st'.s.mem } := by
+  induction rest with
+  | nil =>
+    intro done st _ hmem _ _ _ _
+    exact ⟨st, rfl, by simpa using hmem, rfl⟩
+  | cons g rest ih =>
+    intro done st hdone hmem heach hsep1 hsep2 hcap
+    have hp := List.pairwise_cons.mp hsep2
+    rcases heach g (List.mem_cons_self ..) with hh | hg
+    · -- a header without effect
+      have hnl := harmless_not_load file g hh
+      simp only [loadSegments, harmless_step file st g hh]
+      have hf : (g :: rest).filter isLoadB = rest.filter isLoadB := by simp [List.filter_cons, hnl]
+      rw [hf] at hcap ⊢
+      exact ih done st hdone hmem (fun x hx => heach x (List.mem_cons_of_mem _ hx))
+        (fun d hd r hr => hsep1 d hd r (List.mem_cons_of_mem _ hr)) hp.2 hcap
+    · -- a loadable segment
+      have hl := good_is_load file g hg
+      have hf : (g :: rest).filter isLoadB = g :: rest.filter isLoadB := by simp [List.filter_cons, hl]
+      rw [hf] at hcap ⊢
+      simp only [List.map_cons, List.sum_cons] at hcap
+      have hsep : ∀ ar ∈ st.s.mem, 0 < ar.len ∧ (ar.start + ar.len ≤ g.vaddr ∨ pageEnd g ≤ ar.start) := by
+        intro ar har
+        have : proj ar ∈ st.s.mem.map proj := List.mem_map.mpr ⟨ar, har, rfl⟩
+        rw [hmem] at this
+        obtain ⟨d, hd, hde⟩ := List.mem_map.mp this
+        simp only [want, proj, Prod.mk.injEq] at hde
+        obtain ⟨h1, h2, _, _⟩ := hde
+        have hdg := hdone d hd
+        have hal := areaLen_pos file d hdg
+        have hs := hsep1 d hd g (List.mem_cons_self ..) hg
+        unfold sepSeg at hs
+        rw [← h1, ← h2]
+        omega
+      obtain ⟨name, hload⟩ := loadLoad_good file st g hg hsep (by omega)
+      simp only [loadSegments, good_step file st g hg, hload]
+      have := ih (done ++ [g])
+        { s := { st.s with mem := st.s.mem ++ [wantArea file g name] }, image := st.image + areaLen g }
+        (by
+          intro d hd
+          rcases List.mem_append.mp hd with hd | hd
+          · exact hdone d hd
+          · simp only [List.mem_singleton] at hd; subst hd; exact hg)
+        (by simp only [List.map_append, hmem, List.map_cons, List.map_nil]; rfl)
+        (fun x hx => heach x (List.mem_cons_of_mem _ hx))
+        (by
+          intro d hd r hr hgr
+          rcases List.mem_append.mp hd with hd | hd
+          · exact hsep1 d hd r (List.mem_cons_of_mem _ hr) hgr
+          · simp only [List.mem_singleton] at hd; subst hd; exact hp.1 r hr hg hgr)
+        hp.2 (by simp only; omega)
+      obtain ⟨st', h1, h2, h3⟩ := this
+      refine ⟨st', h1, ?_, ?_⟩
+      · rw [h2]; simp [List.append_assoc]
+      · rw [h3]
+/-! ## symbols -/
+
+/-- a symbol that `from_binary` records: defined, and with a readable name -/
+def Recorded (y : ElfSym) (n : String) : Prop := y.undef = false ∧ y.name = some n
+
+theorem symLookup_insert_self (t : List (Nat × String)) (a : Nat) (n : String) :
+    symLookup (symInsert t a n) a = some n := by
+  unfold symLookup symInsert
+  have : (t.filter fun p => decide (p.1 ≠ a)).find? (fun p => decide (p.1 = a)) = none := by
+    rw [List.find?_eq_none]
+    intro p hp
+    have := (List.mem_filter.mp hp).2
+    simpa using this
+  rw [List.find?_append, this]
+  simp
+
+theorem symLookup_insert_ne (t : List (Nat × String)) (a b : Nat) (n : String) (h : a ≠ b) :
+    symLookup (symInsert t b n) a = symLookup t a := by
+  unfold symLookup symInsert
+  have hfil : ∀ l : List (Nat × String),
+      (l.filter fun p => decide (p.1 ≠ b)).find? (fun p => decide (p.1 = a)) = l.find? (fun p => decide (p.1 = a)) := by
+    intro l
+    rw [List.find?_filter]
+    congr 1
+    funext p
+    by_cases hpa : p.1 = a
+    · simp [hpa, h]
+    · simp [hpa]
+  rw [List.find?_append, hfil]
+  have hb : [(b, n)].find? (fun p : Nat × String => decide (p.1 = a)) = none := by
+    simp [Ne.symm h]
+  rw [hb]
+  simp
+
+/-- symbols that are not recorded at `a` do not disturb what `a` resolves to -/
+theorem lookup_unaffected (ys : List ElfSym) (t : List (Nat × String)) (a : Nat)
+    (h : ∀ y ∈ ys, ∀ n, Recorded y n → y.value ≠ a) : symLookup (loadSymbols t ys) a = symLookup t a := by
+  induction ys generalizing t with
+  | nil => rfl
+  | cons y rest ih =>
+    have ihr := fun t' => ih t' (fun z hz => h z (List.mem_cons_of_mem _ hz))
+    unfold loadSymbols
+    cases hu : y.undef with
+    | true => simp only [if_true]; exact ihr t
+    | false =>
+      simp only [Bool.false_eq_true, if_false]
+      cases hn : y.name with
+      | none => exact ihr t
+      | some n =>
+        simp only
+        rw [ihr]
+        exact symLookup_insert_ne t a y.value n (Ne.symm (h y (List.mem_cons_self ..) n ⟨hu, hn⟩))
+
+/-- **Every address that carries a recorded symbol resolves to the name of a symbol recorded there.** -/
+theorem symbols_resolve (ys : List ElfSym) : ∀ (t : List (Nat × String)) (y : ElfSym) (n : String),
+    y ∈ ys → Recorded y n →
+    ∃ y' ∈ ys, ∃ n', Recorded y' n' ∧ y'.value = y.value ∧ symLookup (loadSymbols t ys) y.value = some n' := by
+  induction ys with
+  | nil => intro t y n hy; cases hy
+  | cons z rest ih =>
+    intro t y n hy hr
+    by_cases hlater : ∃ w ∈ rest, ∃ m, Recorded w m ∧ w.value = y.value
+    · -- a later symbol at the same address decides
+      obtain ⟨w, hw, m, hwr, hwv⟩ := hlater
+      have hgen : ∀ t', ∃ y' ∈ z :: rest, ∃ n', Recorded y' n' ∧ y'.value = y.value ∧
+          symLookup (loadSymbols t' rest) y.value = some n' := by
+        intro t'
+        obtain ⟨y', hy', n', h1, h2, h3⟩ := ih t' w m hw hwr
+        exact ⟨y', List.mem_cons_of_mem _ hy', n', h1, by rw [h2, hwv], by rw [← hwv]; exact h3⟩
+      unfold loadSymbols
+      cases hu : z.undef with
+      | true => simp only [if_true]; exact hgen t
+      | false =>
+        simp only [Bool.false_eq_true, if_false]
+        cases hn : z.name with
+        | none => exact hgen t
+        | some nz => exact hgen _
+    · -- no later one: `y` must be `z` itself, and nothing after it touches the address
+      have hnone : ∀ w ∈ rest, ∀ m, Recorded w m → w.value ≠ y.value := by
+        intro w hw m hwr hv
+        exact hlater ⟨w, hw, m, hwr, hv⟩
+      rcases List.mem_cons.mp hy with rfl | hy'
+      · refine ⟨y, List.mem_cons_self .., n, hr, rfl, ?_⟩
+        unfold loadSymbols
+        simp only [hr.1, Bool.false_eq_true, if_false, hr.2]
+        rw [lookup_unaffected rest _ y.value hnone]
+        exact symLookup_insert_self t y.value n
+      · exact absurd rfl (hnone y hy' n hr)
+
+/-! ## the theorem -/
+
+/-- a well-formed static executable as the property describes it: every program header is either without effect or a
+    loadable segment with p_filesz ≤ p_memsz inside the file and the address space; loadable segments occupy distinct
+    pages; the image fits the loader's bound -/
+structure WellFormed (file : List Byte) (segs : List ElfSeg) : Prop where
+  each : ∀ g ∈ segs, Harmless file g ∨ GoodLoad file g
+  sep : segs.Pairwise (fun a b => GoodLoad file a → GoodLoad file b → sepSeg a b)
+  cap : ((segs.filter isLoadB).map areaLen).sum ≤ MAX_IMAGE_SIZE
+
+/-- the symbol table `from_binary` ends with -/
+def finalSymbols (init : Regs) (v : ElfView) : List (Nat × String) :=
+  match v.syms with
+  | none => (elfInit init v.entry).symbols
+  | some ys => loadSymbols (elfInit init v.entry).symbols ys
+
+theorem imgData_get (file : List Byte) (g : ElfSeg) (hg : GoodLoad file g) (k : Nat) (hk : k < areaLen g) :
+    (imgData file g)[k]? = if k < g.filesz then file[g.offset + k]? else some 0 := by
+  unfold imgData
+  have hfl := fileBytes_length file g hg
+  by_cases h : k < g.filesz
+  · simp only [h, if_true]
+    rw [List.getElem?_append_left (by rw [hfl]; exact h)]
+    unfold fileBytes
+    rw [List.getElem?_take_of_lt h, List.getElem?_drop]
+  · simp only [h, if_false]
+    rw [List.getElem?_append_right (by rw [hfl]; omega), hfl]
+    simp only [zeros]
+    rw [List.getElem?_replicate]
+    have : k - g.filesz < areaLen g - g.filesz := by omega
+    simp [this]
+
+/-- **C15.** Loading a well-formed executable succeeds and the machine holds the file's image: for every loadable
+    segment the file bytes at p_vaddr, zeros up to p_memsz (indeed up to the end of the page), the permissions of p_flags
+    on all of it; RIP = e_entry; the general registers are the constructor's; and every address with a recorded symbol
+    resolves to the name of a symbol recorded there. -/
+theorem load_image (init : Regs) (file : List Byte) (v : ElfView) (segs : List ElfSeg)
+    (hv : v.segs = some segs) (he : v.entry < U64) (hwf : WellFormed file segs) :
+    ∃ s, fromBinary init file v = .ok s ∧
+      s.regs.rip = BitVec.ofNat 64 v.entry ∧ s.regs.gpr = init.gpr ∧ s.fs = 0 ∧
+      (∀ g ∈ segs, GoodLoad file g → ∀ k, k < areaLen g →
+        byteAt s.mem (g.vaddr + k) = (if k < g.filesz then file[g.offset + k]? else some 0) ∧
+        permAt s.mem (g.vaddr + k) = some (elfFlagsToProt g.flags)) ∧
+      (∀ ys, v.syms = some ys → ∀ y ∈ ys, ∀ n, Recorded y n →
+        ∃ y' ∈ ys, ∃ n', Recorded y' n' ∧ y'.value = y.value ∧ symLookup s.symbols y.value = some n') := by
+  obtain ⟨st', hload, hmem, hframe⟩ := loadSegments_image file segs [] { s := elfInit init v.entry, image := 0 }
+    (by simp) (by simp [elfInit]) hwf.each (by simp) hwf.sep (by simpa using hwf.cap)
+  have hne : ¬ U64 ≤ v.entry := by omega
+  -- the machine that comes out
+  have hres : ∃ s, fromBinary init file v = .ok s ∧ s.mem = st'.s.mem ∧ s.regs = (elfInit init v.entry).regs ∧
+      s.fs = 0 ∧ s.symbols = finalSymbols init v := by
+    unfold fromBinary finalSymbols
+    simp only [hne, if_false, hv, hload]
+    cases v.syms with
+    | none => exact ⟨st'.s, rfl, rfl, by rw [hframe], by rw [hframe]; rfl, by rw [hframe]⟩
+    | some ys => exact ⟨_, rfl, rfl, by simp only; rw [hframe], by simp only; rw [hframe]; rfl, by simp only; rw [hframe]⟩
+  obtain ⟨s, hs, hsm, hsr, hsf, hss⟩ := hres
+  obtain ⟨_, hwfm, hno⟩ := C16.image_bound init file v s hs
+  refine ⟨s, hs, by rw [hsr]; rfl, by rw [hsr]; rfl, hsf, ?_, ?_⟩
+  · intro g hg hgood k hk
+    have hin : want file g ∈ (segs.filter isLoadB).map (want file) :=
+      List.mem_map.mpr ⟨g, List.mem_filter.mpr ⟨hg, good_is_load file g hgood⟩, rfl⟩
+    simp only [List.nil_append] at hmem
+    rw [← hmem] at hin
+    obtain ⟨ar, har, hpe⟩ := List.mem_map.mp hin
+    simp only [proj, want, Prod.mk.injEq] at hpe
+    obtain ⟨h1, h2, h3, h4⟩ := hpe
+    rw [← hsm] at har
+    have hc : ar.contains (g.vaddr + k) = true := by rw [contains_iff]; omega
+    have hf := findArea_of_mem hno har hc
+    constructor
+    · simp only [byteAt, hf, h1, h3]
+      rw [show g.vaddr + k - g.vaddr = k by omega]
+      exact imgData_get file g hgood k hk
+    · simp only [permAt, hf, Option.map_some, h4]
+  · intro ys hys y hy n hr
+    rw [hss]
+    unfold finalSymbols
+    rw [hys]
+    exact symbols_resolve ys _ y n hy hr
+
+/-- the statement of the property's "up to its memory size" clause, as a corollary -/
+theorem load_image_memsz (init : Regs) (file : List Byte) (v : ElfView) (segs : List ElfSeg)
+    (hv : v.segs = some segs) (he : v.entry < U64) (hwf : WellFormed file segs) :
+    ∃ s, fromBinary init file v = .ok s ∧
+      ∀ g ∈ segs, GoodLoad file g → ∀ k, k < g.memsz →
+        byteAt s.mem (g.vaddr + k) = (if k < g.filesz then file[g.offset + k]? else some 0) ∧
+        permAt s.mem (g.vaddr + k) = some (elfFlagsToProt g.flags) := by
+  obtain ⟨s, hs, _, _, _, himg, _⟩ := load_image init file v segs hv he hwf
+  refine ⟨s, hs, fun g hg hgood k hk => himg g hg hgood k ?_⟩
+  have := pageEnd_bounds g
+  unfold areaLen; omega
+
+/-- permissions are the segment flags: PF_R → read, PF_W → write, PF_X → execute, nothing else -/
+theorem prot_bits (flags : Nat) :
+    (hasPerm (elfFlagsToProt flags) PROT_READ = true ↔ flags &&& 4 ≠ 0) ∧
+    (hasPerm (elfFlagsToProt flags) PROT_WRITE = true ↔ flags &&& 2 ≠ 0) ∧
+    (hasPerm (elfFlagsToProt flags) PROT_EXEC = true ↔ flags &&& 1 ≠ 0) := by
+  unfold elfFlagsToProt hasPerm PROT_READ PROT_WRITE PROT_EXEC
+  split <;> split <;> split <;> simp_all
+/-! ## Non-vacuity: an unaligned segment followed by one on the very next page, with a stack header in between -/
+def exFile : List Byte := List.replicate 64 7
+def exG1 : ElfSeg := { ptype := PT_LOAD, flags := 5, offset := 0, vaddr := 0x400800, filesz := 0x10, memsz := 0x20 }
+def exH : ElfSeg := { ptype := PT_GNU_STACK, flags := 6, offset := 0, vaddr := 0, filesz := 0, memsz := 0 }
+def exG2 : ElfSeg := { ptype := PT_LOAD, flags := 6, offset := 0x10, vaddr := 0x401000, filesz := 4, memsz := 0x1004 }
+
+theorem exG1_good : GoodLoad exFile exG1 := ⟨rfl, by decide, by decide, by decide, by decide, by decide⟩
+theorem exG2_good : GoodLoad exFile exG2 := ⟨rfl, by decide, by decide, by decide, by decide, by decide⟩
+
+example : WellFormed exFile [exG1, exH, exG2] := by
+  refine ⟨?_, ?_, by decide⟩
+  · intro g hg
+    simp only [List.mem_cons, List.mem_nil_iff, or_false] at hg
+    rcases hg with rfl | rfl | rfl
+    · exact Or.inr exG1_good
+    · exact Or.inl (Or.inl rfl)
+    · exact Or.inr exG2_good
+  · refine List.pairwise_cons.mpr ⟨?_, List.pairwise_cons.mpr ⟨?_, List.pairwise_cons.mpr ⟨by simp, List.Pairwise.nil⟩⟩⟩
+    · intro b hb _ hgb
+      simp only [List.mem_cons, List.mem_nil_iff, or_false] at hb
+      rcases hb with rfl | rfl
+      · exact absurd hgb.va (by decide)
+      · left; decide
+    · intro b hb hga
+      exact absurd hga.va (by decide)
+
 end Ax.C15
